@@ -396,7 +396,8 @@ def save_score_midi(
 
         def to_ppq(t):
             # convert div times to new ppq
-            return int(ppq * (qm(t) - ftp))
+            # (rounded, not truncated: the quarter map is a float interpolation and may fall just below the integer tick)
+            return int(np.round(ppq * (qm(t) - ftp)))
 
         for tp in part.iter_all(score.Tempo):
             tempos[to_ppq(tp.start.t)] = MetaMessage(
